@@ -301,6 +301,8 @@ M("c07_revert_bump_walk_stops_at_contained_builds", "C07", "ak/ghist.py",
 M("c08_revert_derived_receiver_takes_base_operand_as_str", "C08", "ak/color.py",
   "        elif isinstance(other, CHText):\n            # (copy of the list",
   "        elif isinstance(other, type(self)):\n            # (copy of the list")
+MUTANTS.append(dict(name="c12_revert_enum_caches_keyed_by_value_only", props=["C12"],
+                    diff="selftest/patches/c12_revert_enum_caches_keyed_by_value_only.diff"))
 M("c06_registered_type_ignores_remote_name", "C06", "ak/ghist.py",
   "        return repo_class(repo_id, repo_address, remote_name)",
   "        return repo_class(repo_id, repo_address, 'origin')")
